@@ -227,6 +227,70 @@ func RuleIM1(c *Ctx) {
 			sc.Holds(c.P.DeclName(fd), c.P.Pos(fd.Pos()), fmt.Sprintf("%d field stores, none through the base type", n))
 			sc.Holds(c.P.DeclName(fd)+":copy", c.P.Pos(fd.Pos()), "inherited nodes are inserted as value copies")
 		}
+		// every copy that is handed on carries the mark of THIS base: `vv := *v ... &vv` is
+		// used only after `vv.InheritedFrom = ...` on every path (a mark set only when the
+		// base's own property had none keeps the name of the base's base)
+		k := 0
+		ast.Inspect(fd.Body, func(x ast.Node) bool {
+			u, ok := x.(*ast.UnaryExpr)
+			if !ok || u.Op != token.AND {
+				return true
+			}
+			id, ok := ast.Unparen(u.X).(*ast.Ident)
+			if !ok {
+				return true
+			}
+			obj := info.ObjectOf(id)
+			var as *ast.AssignStmt
+			ast.Inspect(fd.Body, func(y ast.Node) bool {
+				if a2, ok := y.(*ast.AssignStmt); ok && a2.Tok == token.DEFINE && len(a2.Lhs) == 1 && len(a2.Rhs) == 1 {
+					if did, ok := a2.Lhs[0].(*ast.Ident); ok && info.Defs[did] == obj {
+						as = a2
+					}
+				}
+				return true
+			})
+			if as == nil {
+				return true
+			}
+			if _, isCopy := ast.Unparen(as.Rhs[0]).(*ast.StarExpr); !isCopy {
+				return true
+			}
+			hasMark := false
+			if st, ok := obj.Type().Underlying().(*types.Struct); ok {
+				for i := 0; i < st.NumFields(); i++ {
+					if st.Field(i).Name() == "InheritedFrom" {
+						hasMark = true
+					}
+				}
+			}
+			if !hasMark {
+				return true
+			}
+			k++
+			key := fmt.Sprintf("%s:mark#%d", c.P.DeclName(fd), k)
+			marks := func(nd ast.Node) bool {
+				a2, ok := nd.(*ast.AssignStmt)
+				if !ok {
+					return false
+				}
+				for _, l := range a2.Lhs {
+					if sel, ok := ast.Unparen(l).(*ast.SelectorExpr); ok && sel.Sel.Name == "InheritedFrom" {
+						if bid, ok := ast.Unparen(sel.X).(*ast.Ident); ok && info.ObjectOf(bid) == obj {
+							return true
+						}
+					}
+				}
+				return false
+			}
+			body := innermostBody(fd, u)
+			if c.CFG(pk, body.body).MustAt(u, nil, marks, func(nd ast.Node) bool { return nd == ast.Node(as) }) {
+				sc.Holds(key, c.P.Pos(u.Pos()), "the copy is marked with the base it is taken from on every path before it is handed on")
+			} else {
+				sc.Violation(key, c.P.Pos(u.Pos()), "a copy of a base property is handed on without its InheritedFrom having been set on every path: a property the base itself inherited keeps the mark of the base's base, so the catalog names the wrong type as the one the property was taken from")
+			}
+			return true
+		})
 	}
 }
 
@@ -2747,5 +2811,118 @@ func RuleMU1(c *Ctx) {
 	})
 	if n == 0 {
 		sc.Undecided("reads", "-", "no read of the macro table found")
+	}
+}
+
+// ---------------------------------------------------------------- AL1
+
+// RuleAL1: the bytes of a source file are read-only. Body coordinates hand out sub-slices of
+// the file content, and the same coordinates are read again for every PASTE of a macro, every
+// diagnostic and every later stage. A function that receives a byte slice therefore never
+// writes through it: no element store `p[i] = x`, no `copy(p, ...)`, and not the in-place
+// filter idiom `res := p[:0]; res = append(res, ...)`, which reuses the caller's memory. The
+// first reader would see the right text and every later one the damaged buffer.
+func RuleAL1(c *Ctx) {
+	sc := c.Run.Begin("AL1", "no function writes through a byte-slice parameter (element store, copy into it, or append onto a zero-length reslice of it)", 5)
+	defer sc.End()
+	n := 0
+	c.P.Funcs(func(pk *pkgT, fd *ast.FuncDecl) {
+		if strings.Contains(c.P.Pos(fd.Pos()), "internal/") {
+			return
+		}
+		info := pk.TypesInfo
+		params := map[types.Object]bool{}
+		for _, fl := range fd.Type.Params.List {
+			for _, nm := range fl.Names {
+				o := info.ObjectOf(nm)
+				if o == nil {
+					continue
+				}
+				if sl, ok := o.Type().Underlying().(*types.Slice); ok && isByte(sl.Elem()) {
+					params[o] = true
+				}
+			}
+		}
+		if len(params) == 0 {
+			return
+		}
+		n++
+		// locals that alias a parameter's memory from its start: x := p[:0] / x := p[:k] / x := p
+		alias := map[types.Object]ast.Node{}
+		rootParam := func(e ast.Expr) bool {
+			for {
+				switch x := ast.Unparen(e).(type) {
+				case *ast.Ident:
+					return params[info.ObjectOf(x)] || alias[info.ObjectOf(x)] != nil
+				case *ast.SliceExpr:
+					e = x.X
+				default:
+					return false
+				}
+			}
+		}
+		ast.Inspect(fd.Body, func(x ast.Node) bool {
+			as, ok := x.(*ast.AssignStmt)
+			if !ok || len(as.Lhs) != len(as.Rhs) {
+				return true
+			}
+			for i, r := range as.Rhs {
+				se, ok := ast.Unparen(r).(*ast.SliceExpr)
+				if !ok || !rootParam(se.X) {
+					continue
+				}
+				// only a reslice that keeps the start and has spare capacity behind its end
+				// lets append write into the caller's memory: p[:0], p[:k]
+				if se.Low != nil {
+					if tv, ok := info.Types[se.Low]; !ok || tv.Value == nil || tv.Value.ExactString() != "0" {
+						continue
+					}
+				}
+				if se.High == nil {
+					continue
+				}
+				if id, ok := as.Lhs[i].(*ast.Ident); ok {
+					alias[info.ObjectOf(id)] = as
+				}
+			}
+			return true
+		})
+		bad := ""
+		ast.Inspect(fd.Body, func(x ast.Node) bool {
+			switch s := x.(type) {
+			case *ast.AssignStmt:
+				for i, l := range s.Lhs {
+					if ix, ok := ast.Unparen(l).(*ast.IndexExpr); ok && rootParam(ix.X) {
+						bad = "element store " + types.ExprString(l) + " at " + c.P.Pos(l.Pos())
+					}
+					// x = append(x, ...) with x an alias of the parameter's memory
+					if i < len(s.Rhs) {
+						if call, ok := ast.Unparen(s.Rhs[i]).(*ast.CallExpr); ok {
+							if id, ok := call.Fun.(*ast.Ident); ok && id.Name == "append" && len(call.Args) >= 1 {
+								if a0, ok := ast.Unparen(call.Args[0]).(*ast.Ident); ok && alias[info.ObjectOf(a0)] != nil {
+									bad = "append onto " + a0.Name + ", a zero-based reslice of the parameter (" + c.P.Pos(alias[info.ObjectOf(a0)].Pos()) + "), at " + c.P.Pos(call.Pos())
+								}
+							}
+						}
+					}
+				}
+			case *ast.CallExpr:
+				if id, ok := s.Fun.(*ast.Ident); ok && id.Name == "copy" && len(s.Args) == 2 && rootParam(s.Args[0]) {
+					if _, isBuiltin := info.ObjectOf(id).(*types.Builtin); isBuiltin {
+						bad = "copy into the parameter at " + c.P.Pos(s.Pos())
+					}
+				}
+			}
+			return true
+		})
+		key := c.P.DeclName(fd)
+		if bad == "" {
+			sc.Holds(key, c.P.Pos(fd.Pos()), "writes through none of its byte-slice parameters")
+		} else {
+			sc.Violation(key, c.P.Pos(fd.Pos()), "the function writes into the memory of its byte-slice parameter ("+bad+"): the slice is a window on the file content, which is read again from the same coordinates for every PASTE of the macro, so the second expansion sees a damaged text")
+		}
+	})
+	if n == 0 {
+		sc.Undecided("sites", "-", "no function with a byte-slice parameter found")
 	}
 }
